@@ -18,6 +18,7 @@ def run(tier, seed):
     nsh = core.NCPU if tier == "thorough" else min(12, core.NCPU)
     cases, sums, notes = core.run_sharded(exe, "c11", seed, tier, nsh, timeout=3000)
     r.add_cases(cases, "native")
+    core.also_librel(r, tier, False, lambda exe2: core.run_sharded(exe2, "c11", seed, tier, nsh, timeout=3000))
     r.notes += notes
     obs = core.sum_dicts(sums)
     r.observe("native", obs)
@@ -44,7 +45,7 @@ def replay(path):
         p = subprocess.run([exe, "c11sim", "--seed", str(rp["seed"]), "--tier", rp["tier"], "--only", str(rp["case_index"])], stdout=subprocess.PIPE, text=True)
         print(p.stdout[-2500:])
         return 1 if ('"verdict":"violated"' in p.stdout or p.returncode != 0) else 0
-    exe = core.build_native()
+    exe = core.build_native(libopt="librel" in str(rp.get("engine", "")))
     p = subprocess.run([exe, "c11", "--seed", str(rp["seed"]), "--tier", rp["tier"], "--only", str(rp["case_index"])], stdout=subprocess.PIPE, text=True)
     print(p.stdout[-3000:])
     bad = '"verdict":"violated"' in p.stdout or p.returncode != 0
